@@ -8,6 +8,7 @@ CONSTANTS
   FD = TRUE
   MaxAge = 2
   QuietTicks = TRUE
+  BumpAdvancesVersion = TRUE
   NodeRank <- Rank
 CONSTRAINT VVBound
 PROPERTIES NoLiveMemberRemoved EventuallyAgreed
